@@ -1,6 +1,6 @@
 CONSTANTS
   MaxN = 4
-  Pool = 27
+  Pool = 28
   Full3 = TRUE
 SPECIFICATION Spec
 INVARIANTS Export
